@@ -36,6 +36,8 @@ def gen(rng, index, tier):
     kind = rng.choice(["gen", "gen", "walk", "walk", "move", "uniform"])
     nmax = 7 if tier == "quick" else 10
     n = rng.randint(1, nmax)
+    if rng.random() < 0.03:
+        n = rng.randint(12, 30)   # a few instances well above the usual sizes (code paths that depend on a size)
     if kind == "gen":
         m = rng.randint(1, 4)
         steps = rng.choice([0, 1, 3, 10, 40, 120])
